@@ -10,6 +10,7 @@ import (
 	"reflect"
 	"strings"
 	"unicode/utf8"
+	"unsafe"
 
 	gojson "github.com/goccy/go-json"
 
@@ -148,7 +149,20 @@ func c03Check(c *rt.Ctx, sub int, x any, t reflect.Type, feat string, asciiOnly 
 			ctx := featTag(feat)
 			if mustReject != "" {
 				// what should have been rejected (e.g. the float width) is part of the signature
-				ctx = mustReject + " @ " + ctx
+				must := mustReject
+				if strings.HasPrefix(must, "non-finite:") && outputClass(body) == "nonfinite" {
+					// which width was written? Members that are ignored, filtered by the query or
+					// omitted hold non-finite floats too, so the entry point is asked again about a
+					// copy whose non-finite float32s are zero: still non-finite output = a float64
+					must = "non-finite:float32"
+					cp := copyZeroNonfinite32(reflect.ValueOf(x))
+					var out2 []byte
+					var err2 error
+					if pan2, _, _ := rt.Guard(func() { out2, err2 = e.f(cp.Interface()) }); !pan2 && err2 == nil && outputClass(out2) == "nonfinite" {
+						must = "non-finite:float64"
+					}
+				}
+				ctx = must + " @ " + ctx
 			}
 			c.Violate(rt.Violation{Monitor: "enc-wellformed", Entry: e.name, Kind: "malformed-output:" + outputClass(body), Ctx: ctx,
 				Detail: e.name + " succeeded with " + rt.Q(body) + " | type " + t.String(), Input: input, Sub: sub})
@@ -201,7 +215,7 @@ func validNumber(s string) bool {
 }
 
 func init() {
-	const genBatchesQ, genBatchesT = 256, 2048
+	const genBatchesQ, genBatchesT = 256, 8192
 	register(&Prop{
 		ID: "C03",
 		NumBatches: func(tier string, seed int64) int {
@@ -494,10 +508,90 @@ func nonfiniteWidth(v reflect.Value, depth int) string {
 		}
 	case reflect.Struct:
 		for i := 0; i < v.NumField(); i++ {
+			// members neither encoder writes say nothing about what was written
+			sf := v.Type().Field(i)
+			if sf.Tag.Get("json") == "-" || (sf.PkgPath != "" && !sf.Anonymous) {
+				continue
+			}
 			up(nonfiniteWidth(v.Field(i), depth+1))
 		}
 	}
 	return best
+}
+
+// copyZeroNonfinite32 deep-copies v with every NaN/Inf of kind float32 replaced by zero.
+func copyZeroNonfinite32(v reflect.Value) reflect.Value {
+	if !v.IsValid() {
+		return v
+	}
+	out := reflect.New(v.Type()).Elem()
+	var cp func(dst, src reflect.Value, depth int)
+	cp = func(dst, src reflect.Value, depth int) {
+		if depth > 40 {
+			dst.Set(src)
+			return
+		}
+		switch src.Kind() {
+		case reflect.Float32:
+			if f := src.Float(); math.IsNaN(f) || math.IsInf(f, 0) {
+				dst.SetFloat(0)
+			} else {
+				dst.SetFloat(f)
+			}
+		case reflect.Ptr:
+			if !src.IsNil() {
+				n := reflect.New(src.Type().Elem())
+				cp(n.Elem(), src.Elem(), depth+1)
+				dst.Set(n)
+			}
+		case reflect.Interface:
+			if !src.IsNil() {
+				n := reflect.New(src.Elem().Type()).Elem()
+				cp(n, src.Elem(), depth+1)
+				dst.Set(n)
+			}
+		case reflect.Slice:
+			if !src.IsNil() {
+				n := reflect.MakeSlice(src.Type(), src.Len(), src.Len())
+				for i := 0; i < src.Len(); i++ {
+					cp(n.Index(i), src.Index(i), depth+1)
+				}
+				dst.Set(n)
+			}
+		case reflect.Array:
+			for i := 0; i < src.Len(); i++ {
+				cp(dst.Index(i), src.Index(i), depth+1)
+			}
+		case reflect.Map:
+			if !src.IsNil() {
+				n := reflect.MakeMapWithSize(src.Type(), src.Len())
+				it := src.MapRange()
+				for it.Next() {
+					e := reflect.New(src.Type().Elem()).Elem()
+					cp(e, it.Value(), depth+1)
+					n.SetMapIndex(it.Key(), e)
+				}
+				dst.Set(n)
+			}
+		case reflect.Struct:
+			for i := 0; i < src.NumField(); i++ {
+				df, sf := dst.Field(i), src.Field(i)
+				if !df.CanSet() {
+					if !src.Type().Field(i).Anonymous || !df.CanAddr() || !sf.CanAddr() {
+						continue // unexported and not embedded: not encoded
+					}
+					// an embedded struct of unexported type still promotes its exported members
+					df = reflect.NewAt(df.Type(), unsafe.Pointer(df.UnsafeAddr())).Elem()
+					sf = reflect.NewAt(sf.Type(), unsafe.Pointer(sf.UnsafeAddr())).Elem()
+				}
+				cp(df, sf, depth+1)
+			}
+		default:
+			dst.Set(src)
+		}
+	}
+	cp(out, v, 0)
+	return out
 }
 
 func baseFloat(t reflect.Type) reflect.Type {
